@@ -148,6 +148,9 @@ def cases(draw):
             mw = ''.join(ws)
             if draw(st.booleans()):
                 mw = mw.capitalize()
+            elif draw(st.booleans()):
+                # every word in a case style of its own (blueHORSEcastlE): the mask of each word belongs to that word
+                mw = ''.join(draw(st.sampled_from([w, w, w.upper(), w.capitalize(), w[:-1] + w[-1].upper()])) for w in ws)
             tail = ''.join(ws[1:])
             for cand in (mw, tail.capitalize() if draw(st.booleans()) else tail):
                 if cand not in seen and len(cand) <= 30 and in_domain(cand, enc):
